@@ -267,3 +267,211 @@ def _dispatch(repo):
     act = "display" if re.search(r'write!\(out,\s*"\{value\}"\)', body) else ("escape-to_string" if "HtmlEscape(&value.to_string())" in body else "?")
     toks.append(f"else:{act}")
     return toks, "def c02WriteEscapedDispatch : List String := [" + ", ".join(lean_str(t) for t in toks) + "]"
+
+
+# ------------------------------------------------------------------ the complete callable table
+_SCALAR_RETS = ("String", "bool", "usize", "i64", "u64", "f64", "u32", "i32")
+
+
+def _find_fn(src, name):
+    """(signature text, return type, body) of `fn name(...)` in comment-stripped source, or None"""
+    for m in re.finditer(r"\bfn\s+%s\s*(?:<[^>{(]*>)?\s*\(" % re.escape(name), src):
+        i = m.end() - 1
+        depth, j = 0, i
+        while j < len(src):
+            if src[j] == "(":
+                depth += 1
+            elif src[j] == ")":
+                depth -= 1
+                if depth == 0:
+                    break
+            j += 1
+        k = src.index("{", j)
+        head = src[j + 1:k]
+        rm = re.match(r"\s*->\s*(.*?)\s*(?:where\b.*)?$", head, re.S)
+        ret = re.sub(r"\s+", " ", rm.group(1)).strip() if rm else "()"
+        d, e = 0, k
+        while e < len(src):
+            if src[e] == "{":
+                d += 1
+            elif src[e] == "}":
+                d -= 1
+                if d == 0:
+                    break
+            e += 1
+        return src[m.start():k], ret, src[k + 1:e]
+    return None
+
+
+def _facts(body):
+    mark = body.count("from_safe_string(")
+    for line in body.splitlines():
+        if "StringType::Safe" in line and not re.search(r"matches!|if let|=>|ref\s", line):
+            mark += 1
+    reads = len(re.findall(r"is_safe\(\)", body)) + len(re.findall(r"StringInput::is_safe\b", body))
+    for line in body.splitlines():
+        if "StringType::Safe" in line and re.search(r"matches!|if let|=>", line):
+            reads += 1
+    return {
+        "preserve": body.count("preserve_safety("),
+        "mark": mark,
+        "reads": reads,
+        "stateFormat": len(re.findall(r"state\.format\(|\.format\(state\)|\bjoin_safe\b|env\(\)\.format\(", body)),
+        "escFormatter": body.count("escape_formatter"),
+        "writeEscaped": body.count("write_escaped("),
+        "dyn": len(re.findall(r"apply_filter\(|perform_test\(|get_filter\(|get_test\(|\.call\(|call_method\(", body)),
+    }
+
+
+def _registered(repo):
+    """[(kind, name, crate, module, fn)] of everything the two crates register"""
+    out = []
+    src = _strip_comments(read(repo, "minijinja/src/defaults.rs"))
+    for kind, builder, default_mod in (("filter", "build_builtin_filters", "filters"), ("test", "build_builtin_tests", "tests"),
+                                       ("function", "build_globals", "functions")):
+        body = fn_body(src, r"fn %s\(\)[^{]*\{" % builder)
+        lets = {v: (m, f) for v, m, f in re.findall(r"let\s+(\w+)\s*=\s*Value::from_function\(\s*(\w+)::(\w+)\s*,?\s*\)", body)}
+        n_ins = 0
+        for name, rhs in re.findall(r"rv\.insert\(\s*\"([^\"]+)\"\.into\(\)\s*,\s*(.*?)\s*,?\s*\)\s*;", body, re.S):
+            n_ins += 1
+            m = re.match(r"Value::from_function\(\s*(\w+)::(\w+)\s*,?\s*\)$", rhs) or \
+                re.match(r"BoxedFunction::new\(\s*(\w+)::(\w+)\s*,?\s*\)\s*\.to_value\(\)$", rhs)
+            if m:
+                out.append((kind, name, "minijinja", m.group(1), m.group(2)))
+                continue
+            m = re.match(r"(\w+)(?:\.clone\(\))?$", rhs)
+            if m and m.group(1) in lets:
+                out.append((kind, name, "minijinja", lets[m.group(1)][0], lets[m.group(1)][1]))
+                continue
+            raise KeyError(f"{builder}: registration of {name!r} not understood: {rhs!r}")
+        if n_ins != len(re.findall(r"rv\.insert\(", body)):
+            raise KeyError(f"{builder}: some rv.insert(..) not parsed")
+    csrc = _strip_comments(read(repo, "minijinja-contrib/src/lib.rs"))
+    cbody = fn_body(csrc, r"pub fn add_to_environment\(env: &mut Environment\)\s*\{")
+    regs = re.findall(r"env\.add_(filter|function|test|global)\(\s*\"([^\"]+)\"\s*,\s*([\w:]+)\s*,?\s*\)", cbody)
+    if len(regs) != len(re.findall(r"env\.add_\w+\(", cbody)):
+        raise KeyError("add_to_environment: some env.add_*(..) not parsed")
+    for k, name, path in regs:
+        parts = path.split("::")
+        mod = parts[-2] if len(parts) > 1 else "lib"
+        out.append((k, name, "minijinja-contrib", mod, parts[-1]))
+    return out
+
+
+_MOD_FILES = {
+    ("minijinja", "filters"): ["minijinja/src/filters.rs"],
+    ("minijinja", "tests"): ["minijinja/src/tests.rs"],
+    ("minijinja", "functions"): ["minijinja/src/functions.rs"],
+    ("minijinja-contrib", "filters"): ["minijinja-contrib/src/filters/mod.rs", "minijinja-contrib/src/filters/datetime.rs"],
+    ("minijinja-contrib", "globals"): ["minijinja-contrib/src/globals.rs"],
+    ("minijinja-contrib", "lib"): ["minijinja-contrib/src/lib.rs"],
+}
+
+
+def _callables(repo):
+    rows = []
+    cache = {}
+
+    def src_of(rel):
+        if rel not in cache:
+            cache[rel] = _cut_tests(_strip_comments(read(repo, rel)))
+        return cache[rel]
+
+    for kind, name, crate, mod, fn in _registered(repo):
+        found = None
+        for rel in _MOD_FILES.get((crate, mod), []):
+            r = _find_fn(src_of(rel), fn)
+            if r:
+                found = (rel, r)
+                break
+        if not found:
+            raise KeyError(f"implementation of {kind} {name!r} ({crate}::{mod}::{fn}) not found")
+        rel, (_sig, ret, body) = found
+        rows.append({"kind": kind, "name": name, "file": rel, "fn": fn, "ret": ret, "body": body})
+    # pycompat methods: one row per match arm
+    prel = "minijinja-contrib/src/pycompat.rs"
+    psrc = src_of(prel)
+    disp = fn_body(psrc, r"pub fn unknown_method_callback\(")
+    if not (re.search(r"ValueKind::String\s*=>\s*string_methods", disp) and re.search(r"ValueKind::Map\s*=>\s*map_methods", disp)
+            and re.search(r"ValueKind::Seq\s*=>\s*seq_methods", disp)):
+        raise KeyError("unknown_method_callback dispatch")
+    for fn, kindname in (("string_methods", "str"), ("map_methods", "dict"), ("seq_methods", "list")):
+        sig, ret, body = _find_fn(psrc, fn)
+        inner = fn_body(body, r"match method\s*\{")
+        arms = list(re.finditer(r"^\s{8}((?:\"\w+\"\s*\|\s*)*\"\w+\"|_)\s*=>", inner, re.M))
+        for i, a in enumerate(arms):
+            if a.group(1) == "_":
+                continue
+            arm_body = inner[a.end():arms[i + 1].start() if i + 1 < len(arms) else len(inner)]
+            for n in re.findall(r"\"(\w+)\"", a.group(1)):
+                rows.append({"kind": "method", "name": f"{kindname}.{n}", "file": prel, "fn": f"{fn}#{n}", "ret": ret, "body": arm_body})
+    if sum(1 for r in rows if r["kind"] == "method") < 20:
+        raise KeyError("pycompat method arms")
+    # facts, direct calls to other registered implementations, nested fns
+    impl_names = {}
+    for r in rows:
+        if r["kind"] in ("filter", "function"):
+            impl_names.setdefault(r["fn"], r)
+    for r in rows:
+        b = r["body"]
+        r.update(_facts(b))
+        calls = set(re.findall(r"filters::(\w+)\s*\(", b))
+        for other in impl_names:
+            if other != r["fn"] and impl_names[other]["file"] == r["file"] and re.search(r"(?<![\w.:!])%s\s*\(" % re.escape(other), b):
+                calls.add(other)
+        r["calls"] = sorted(c for c in calls if c in impl_names and c != r["fn"])
+        r["nested"] = sorted(set(re.findall(r"\bfn\s+(\w+)", b)))
+    prod = {r["fn"] for r in rows if r["preserve"] or r["mark"]}
+    # transitive closure over direct calls
+    via = {r["fn"]: set() for r in rows}
+    changed = True
+    while changed:
+        changed = False
+        for r in rows:
+            for c in r["calls"]:
+                new = ({c} if c in prod else set()) | via.get(c, set())
+                if not new <= via[r["fn"]]:
+                    via[r["fn"]] |= new
+                    changed = True
+    for r in rows:
+        r["via"] = sorted(via[r["fn"]])
+        del r["body"]
+    return rows
+
+
+def _from_string_is_normal(repo):
+    """`Value::from(String / &str / Cow / Arc<str>)` builds an unmarked string"""
+    src = _strip_comments(read(repo, "minijinja/src/value/argtypes.rs"))
+    b1 = fn_body(src, r"impl<'a> From<&'a str> for Value\s*\{")
+    b2 = fn_body(src, r"impl From<String> for Value\s*\{")
+    b3 = fn_body(src, r"impl From<Arc<str>> for Value\s*\{")
+    ok = ("StringType::Normal" in b1 and "StringType::Safe" not in b1 and "SmallStr" in b1
+          and re.search(r"Value::from\(val\.as_str\(\)\)", b2) and "StringType::Normal" in b3 and "StringType::Safe" not in b3)
+    if not ok:
+        raise KeyError("From<String>/From<&str>/From<Arc<str>> for Value no longer build StringType::Normal")
+    return True
+
+
+@item("C02_CALLABLES")
+def _callable_table(repo):
+    rows = _callables(repo)
+    _from_string_is_normal(repo)
+    sc = _scan_sites(repo)
+    sites = sorted((rel, fn, kind, n) for (rel, fn, kind), n in sc.items() if kind in ("mark", "preserve"))
+    b = lambda x: "true" if x else "false"
+    lst = lambda xs: "[" + ", ".join(lean_str(x) for x in xs) + "]"
+    rec = []
+    for r in rows:
+        rec.append("  { kind := %s, name := %s, file := %s, fn := %s, ret := %s, preserve := %s, mark := %s, reads := %s, "
+                   "stateFormat := %s, escFormatter := %s, writeEscaped := %s, dyn := %s, calls := %s, via := %s, nested := %s }"
+                   % (lean_str(r["kind"]), lean_str(r["name"]), lean_str(r["file"]), lean_str(r["fn"]), lean_str(r["ret"]),
+                      b(r["preserve"]), b(r["mark"]), b(r["reads"]), b(r["stateFormat"]), b(r["escFormatter"]), b(r["writeEscaped"]),
+                      b(r["dyn"]), lst(r["calls"]), lst(r["via"]), lst(r["nested"])))
+    lean = ("structure C02Callable where\n  kind : String\n  name : String\n  file : String\n  fn : String\n  ret : String\n"
+            "  preserve : Bool\n  mark : Bool\n  reads : Bool\n  stateFormat : Bool\n  escFormatter : Bool\n  writeEscaped : Bool\n"
+            "  dyn : Bool\n  calls : List String\n  via : List String\n  nested : List String\n"
+            "def c02Callables : List C02Callable := [\n" + ",\n".join(rec) + "]\n"
+            "def c02FromStringIsNormal : Bool := true\n"
+            "def c02ProducerSiteRows : List (String × String × String × Nat) := ["
+            + ", ".join(f"({lean_str(rel)}, {lean_str(fn)}, {lean_str(kind)}, {n})" for rel, fn, kind, n in sites) + "]")
+    return {"callables": rows, "sites": [list(s) for s in sites]}, lean
